@@ -248,7 +248,8 @@ class KernExporter(object):
         symbols = ""
         if not isinstance(element, spt.Rest):
             if element.tie_next and element.tie_prev:
-                symbols += "-"
+                # continuation of a tie ("-" is the flat sign)
+                symbols += "_"
             elif element.tie_next:
                 symbols += "["
             elif element.tie_prev:
